@@ -98,11 +98,17 @@ def make_session_cls(mods):
 
 def run_case(repo, items, order, transport="rs"):
     logging.disable(logging.CRITICAL)
+    # a slow peer (the reply sits in the send buffer for 5 virtual seconds) whenever the case
+    # ends with a reply-and-disconnect: the reply must still get through before the close
+    slow_peer = bool(order) and items[order[-1]][1][0] in ('dv', 'de') and \
+        not any(o[0] == 't' for _k, o in items)
     """items: list of (kind 'R'|'N'|'B', outcome tuple); 'B' items form one batch.
     order: permutation of range(len(items)) = completion order."""
     rig = Rig(repo, make_session_cls, transport=transport)
     try:
         s = rig.session
+        if slow_peer:
+            rig.tr.drain_delay = 5.0
         obs = {'exc': None}
         loopexc = []
         rig.loop.set_exception_handler(lambda loop, ctx: loopexc.append(
@@ -140,6 +146,8 @@ def run_case(repo, items, order, transport="rs"):
             if items[idx][1][0] == 't':
                 rig.advance(s.processing_timeout + 5)
         rig.idle()
+        if slow_peer:
+            rig.advance(12)
         closed_before_probe = rig.tr.is_closing()
         replies = {}
         dup = []
